@@ -89,6 +89,7 @@ func init() {
 		},
 		"(*sync/atomic.Int64).Store": func(b *bctx) (Val, *State) {
 			l := b.x.atomicLoc(b.args[0])
+			b.x.lockCheck(b.st, l, true, b.reach, b.pos)
 			b.x.storeLoc(b.st, l, b.args[1].S)
 			return Val{T: b.resT}, b.st
 		},
